@@ -24,38 +24,57 @@ OSC_CLOSE = "\x1b]8;;\x1b\\"
 
 
 def r3_1(ctx):
-    ctx.rule("R3.1", "emitted sequences are paired (no style leaks): every template in Style.render that opens an SGR sequence closes the text with ESC[0m, and every OSC-8 link open is followed, after the text, by the OSC-8 close")
+    from ..astutil import concat_parts
+    from ..yieldpaths import Unsupported, paths_of, resolve, show
+    ctx.rule("R3.1", "emitted sequences are paired (no style leaks), decided per control-flow path of Style.render on the flattened returned string: whatever opens before the text (SGR `ESC[..m`, OSC-8 link `ESC]8;..ST`) is closed right after it in reverse order (`ESC[0m`, then `ESC]8;;ST`); a path that opens nothing returns the text alone")
     f = ctx.repo.fn("style:Style.render")
     text_p = f.params[1]
+    try:
+        P = [resolve(p_) for p_ in paths_of(f.node)]
+    except Unsupported as u:
+        raise AnalysisError(f"Style.render: statement outside the path normal form ({u})")
     n = 0
-    for x in walk_local(f.node):
-        if not isinstance(x, ast.JoinedStr):
+    seen = set()
+    for p_ in P:
+        rets = [e for e in p_ if e[0] == "return" and e[1] is not None]
+        if len(rets) != 1 or rets[0][1] in seen:
             continue
-        parts = fstring_parts(x)
-        flat = "".join(p if isinstance(p, str) else "\0" for p in parts)
-        where = f"{f.module.relpath}:{x.lineno}"
-        if SGR_OPEN in flat and "m\0" in flat.replace(RESET, ""):
-            n += 1
-            # find the text field: a field naming the text parameter or a previously rendered string
-            idx = None
-            for i, p in enumerate(parts):
-                if isinstance(p, tuple) and isinstance(p[1], ast.Name) and p[1].id in (text_p, "rendered"):
-                    idx = i
-            after = "".join(p for p in parts[idx + 1:] if isinstance(p, str)) if idx is not None else ""
-            ctx.check(idx is not None and after.startswith(RESET), f.fq, short(x), where, "SGR open ... text ... ESC[0m",
-                      "a styled template does not end the text with the reset ESC[0m: the style leaks onto whatever is printed next")
-        if OSC_OPEN in flat:
-            n += 1
-            idx = None
-            for i, p in enumerate(parts):
-                if isinstance(p, tuple) and isinstance(p[1], ast.Name) and p[1].id in (text_p, "rendered"):
-                    idx = i
-            after = "".join(p for p in parts[idx + 1:] if isinstance(p, str)) if idx is not None else ""
-            before = "".join(p if isinstance(p, str) else "\0" for p in parts[: idx or 0])
-            ok = idx is not None and after.startswith(OSC_CLOSE) and before.endswith("\x1b\\") and before.startswith(OSC_OPEN)
-            ctx.check(ok, f.fq, short(x), where, "OSC 8 open ... text ... OSC 8 close",
-                      "the hyperlink template does not close the link (OSC 8 ;; ST) right after the text: following output stays inside the link")
-    ctx.floor(n, 2, "escape templates in Style.render")
+        seen.add(rets[0][1])
+        try:
+            v = ast.parse(rets[0][1], mode="eval").body
+        except SyntaxError:
+            raise AnalysisError(f"Style.render: cannot parse returned expression {rets[0][1][:80]}")
+        parts = concat_parts(v)
+        idx = [i for i, q in enumerate(parts) if q == ("expr", text_p)]
+        where = f.where
+        if len(idx) != 1:
+            ctx.violation(f.fq, rets[0][1][:160], where, f"a path of Style.render returns `{rets[0][1][:120]}`, in which the text does not occur exactly once")
+            continue
+        before = "".join(q if isinstance(q, str) else "\0" for q in parts[: idx[0]])
+        after = "".join(q if isinstance(q, str) else "\0" for q in parts[idx[0] + 1:])
+        n += 1
+        opens_sgr = SGR_OPEN in before.replace(OSC_OPEN, "")
+        opens_osc = OSC_OPEN in before
+        rest = after
+        ok = True
+        why = ""
+        if opens_sgr:
+            if rest.startswith(RESET):
+                rest = rest[len(RESET):]
+            else:
+                ok, why = False, "a styled template does not end the text with the reset ESC[0m: the style leaks onto whatever is printed next"
+        if ok and opens_osc:
+            st_closed = before.startswith(OSC_OPEN) and "\x1b\\" in before[len(OSC_OPEN):]
+            if rest.startswith(OSC_CLOSE) and st_closed:
+                rest = rest[len(OSC_CLOSE):]
+            else:
+                ok, why = False, "the hyperlink template does not close the link (OSC 8 ;; ST) right after the text: following output stays inside the link"
+        if ok and rest:
+            ok, why = False, f"extra output `{rest!r}` follows the text"
+        if ok and not opens_sgr and not opens_osc and before:
+            ok, why = False, f"`{before!r}` precedes the text although no sequence is opened"
+        ctx.check(ok, f.fq, rets[0][1][:160], where, ("SGR open ... " if opens_sgr else "") + ("OSC 8 open ... " if opens_osc else "") + "text" + (" ... ESC[0m" if opens_sgr else "") + (" ... OSC 8 close" if opens_osc else ""), why or "unpaired sequence")
+    ctx.floor(n, 3, "distinct returned templates of Style.render")
 
 
 def _segment_paths(rb):
@@ -164,15 +183,33 @@ def r3_3(ctx):
 
         visiting = set()
 
+        nested = {x.name: x for x in ast.walk(rc.node) if isinstance(x, ast.FunctionDef) and x is not rc.node}
+
         def stripped(e, depth=0):
-            """e is <loop style>.without_color, or a name all of whose definitions are that / a lookup in a cache filled only with that"""
+            """e is <loop style>.without_color, or a name all of whose definitions are that / a lookup in a cache filled only
+            with that / a call of a nested helper returning that / `X if style else None`"""
             if isinstance(e, ast.Attribute) and e.attr == "without_color" and isinstance(e.value, ast.Name) and e.value.id in loop_targets:
                 return True
+            if isinstance(e, ast.IfExp) and isinstance(e.test, ast.Name) and e.test.id in loop_targets and isinstance(e.orelse, ast.Constant) and e.orelse.value is None:
+                return stripped(e.body, depth + 1)
+            if isinstance(e, ast.Call) and isinstance(e.func, ast.Name) and e.func.id in nested and len(e.args) == 1 and isinstance(e.args[0], ast.Name) and e.args[0].id in loop_targets and depth < 4:
+                h = nested[e.func.id]
+                hp = [a.arg for a in h.args.args]
+                if len(hp) != 1:
+                    return False
+                added = hp[0] not in loop_targets
+                loop_targets.add(hp[0])
+                try:
+                    rets_ = [r for st_ in h.body for r in ast.walk(st_) if isinstance(r, ast.Return)]
+                    return bool(rets_) and all(r.value is not None and stripped(r.value, depth + 1) for r in rets_)
+                finally:
+                    if added:
+                        loop_targets.discard(hp[0])
             if isinstance(e, ast.Name):
                 if e.id in visiting:
                     return True  # coinductive: a cycle through the cache adds no new source of values
                 visiting.add(e.id)
-                vals = [x.value for x in walk_local(rc.node) if isinstance(x, ast.Assign) and any(norm(t_) == e.id for t_ in x.targets)]
+                vals = [x.value for x in ast.walk(rc.node) if isinstance(x, ast.Assign) and any(norm(t_) == e.id for t_ in x.targets)]
                 r = bool(vals) and all(stripped(v, depth + 1) for v in vals)
                 visiting.discard(e.id)
                 return r
@@ -183,7 +220,7 @@ def r3_3(ctx):
                 lookup = (e.value.id, e.slice.id)
             if lookup is not None:
                 cache_name, key = lookup
-                stores = [(t_, x.value) for x in walk_local(rc.node) if isinstance(x, ast.Assign) for t_ in x.targets if isinstance(t_, ast.Subscript) and norm(t_.value) == cache_name]
+                stores = [(t_, x.value) for x in ast.walk(rc.node) if isinstance(x, ast.Assign) for t_ in x.targets if isinstance(t_, ast.Subscript) and norm(t_.value) == cache_name]
                 return bool(stores) and all(norm(t_.slice) == key and stripped(v_, depth + 1) for t_, v_ in stores)
             return False
         ok = stripped(a1)
